@@ -8,14 +8,19 @@ from . import synccases as sc
 
 SYNC = {
     'C15': [('cases', 'c15_exhaustive', sc.c15_exhaustive_size('quick'), sc.c15_exhaustive_size('thorough')),
-            ('cases', 'c15_tree', 4000, 150000), ('cases', 'c15_history', 1500, 60000)],
-    'C16': [('cases', 'c16_tree', 20000, 1000000)],
+            ('cases', 'c15_tree', 4000, 150000), ('cases', 'c15_history', 1500, 60000),
+            ('suite',)],
+    'C16': [('cases', 'c16_tree', 20000, 1000000),
+            ('suite',)],
     'C17': [('cases', 'c17_exhaustive', sc.c17_exhaustive_size('quick'), sc.c17_exhaustive_size('thorough')),
-            ('cases', 'c17_random', 1500, 60000), ('cases', 'c17_iterate', 3000, 100000)],
+            ('cases', 'c17_random', 1500, 60000), ('cases', 'c17_iterate', 3000, 100000),
+            ('suite',)],
     'C18': [('cases', 'c18_exhaustive', sc.c18_exhaustive_size('quick'), sc.c18_exhaustive_size('thorough')),
-            ('cases', 'c18_history', 4000, 200000)],
+            ('cases', 'c18_history', 4000, 200000),
+            ('suite',)],
     'C19': [('cases', 'c19_program', 30000, 1500000)],
-    'C20': [('cases', 'c20_tree', 12000, 400000)],
+    'C20': [('cases', 'c20_tree', 12000, 400000),
+            ('suite',)],
 }
 
 DECIDING = {
